@@ -82,6 +82,14 @@ func execStep(context *exprContext, expr *grammar.Grammar) error {
 	}
 
 	switch nextBsr.Label.Slot().NT {
+	case symbols.NT_NodeTestAndPredicate, symbols.NT_StepWithAxisAndNodeTestAndPredicate:
+		// Predicates are evaluated separately for each context node.
+		if nodeSet, ok := context.result.(NodeSet); ok && len(nodeSet) > 1 {
+			return execStepPerContextNode(context, expr, nodeSet)
+		}
+	}
+
+	switch nextBsr.Label.Slot().NT {
 	case symbols.NT_NodeTest,
 		symbols.NT_NodeTestAndPredicate,
 		symbols.NT_NodeTestNodeTypeNoArgTest,
@@ -108,6 +116,30 @@ func execStep(context *exprContext, expr *grammar.Grammar) error {
 	}
 
 	return execContext(context, expr.Next(nextBsr))
+}
+
+func execStepPerContextNode(context *exprContext, expr *grammar.Grammar, nodeSet NodeSet) error {
+	result := make(NodeSet, 0)
+
+	for _, i := range nodeSet {
+		nextContext := context.copy()
+		nextContext.result = NodeSet{i}
+
+		if err := execStep(&nextContext, expr); err != nil {
+			return err
+		}
+
+		selected, ok := nextContext.result.(NodeSet)
+
+		if !ok {
+			return errQueryNonNodeset
+		}
+
+		result = append(result, selected...)
+	}
+
+	context.result = cleanupForwardAxis(result)
+	return nil
 }
 
 func execPredicate(context *exprContext, expr *grammar.Grammar) error {
